@@ -84,6 +84,14 @@ def rand_tree(rng, depth=3, fanout=4, symlinks=True, owners=True, pool=None, neg
             elif r < 0.42 and symlinks:
                 tgt = rng.choice(["a", "../a", "/nonexistent/x", ".", "..", "b/c", "ñ"])
                 node["c"][name] = meta({"k": "l", "target": tgt}, True)
+                if rng.random() < 0.5:
+                    # a later sibling whose name merely EXTENDS the link's name (lib -> ..., lib64/): it is not beneath the link
+                    sib = name + rng.choice(["64", ".d", "-x", "ñ", " 2"])
+                    if sib not in node["c"]:
+                        if rng.random() < 0.5:
+                            node["c"][sib] = meta({"k": "f", "data": rand_bytes(rng, 3, pool).hex()})
+                        else:
+                            node["c"][sib] = meta({"k": "d", "c": {"in": meta({"k": "f", "data": rand_bytes(rng, 2, pool).hex()})}})
             else:
                 data = rand_bytes(rng, rng.choice(sizes), pool)
                 pool.append(data)
@@ -221,4 +229,29 @@ def mutate_tree(rng, tree, pool=None):
             p, x = rng.choice(links)
             x["target"] = x["target"] + "x"
             muts.append(("retarget", p))
+    # several mutations of one file can cancel out in mtime (-1 then +1) while its bytes changed and its size did not: that is
+    # the edit conserve does not see by design (kind + mtime + size unchanged); keep the generator out of it
+    before = dict(tree_paths(tree))
+    for p, x in tree_paths(t):
+        o = before.get(p)
+        if o is not None and x["k"] == "f" and o["k"] == "f" and x["data"] != o["data"] \
+                and len(x["data"]) == len(o["data"]) and x["mtime"] == o["mtime"]:
+            x["mtime"] = x["mtime"] + 1
     return t, muts
+
+
+def avoid_unseen_edit(tree, earlier_trees):
+    """Bump the mtime of any file of `tree` that has the path, size and mtime of a file in one of `earlier_trees` but other
+    bytes: the edit conserve cannot see by design (content_heuristically_unchanged), which the histories keep out of."""
+    for p, x in tree_paths(tree):
+        if x["k"] != "f":
+            continue
+        changed = True
+        while changed:
+            changed = False
+            for et in earlier_trees:
+                o = dict(tree_paths(et)).get(p)
+                if o is not None and o["k"] == "f" and o["data"] != x["data"] and len(o["data"]) == len(x["data"]) and o["mtime"] == x["mtime"]:
+                    x["mtime"] += 1
+                    changed = True
+    return tree
